@@ -403,6 +403,10 @@ def gen_valid_session(rng, nrec=None, max_rec=300, boundary=False, small_numbers
         setters.append(["c", gen_title(rng, nonascii=nonascii_titles)])
     if rng.random() < 0.7:
         setters.append(gen_box(rng))
+        if rng.random() < 0.2:
+            # the box assigned twice (a triclinic cell, then a rectangular one, or any other pair): the LAST assignment
+            # is the box of the file (seed C13-11: a setter that updates a kept buffer leaves stale off-diagonals)
+            setters.append(gen_box(rng))
     declared = rng.random() < 0.5
     if declared:
         setters.append(["n", nrec])
